@@ -49,7 +49,9 @@ func execAuth(op string, args []string) string {
 	return "bad-op"
 }
 
-var authUsers = []string{"@creator:hs1", "@alice:hs1", "@bob:hs2", "@carol:hs3", "@dave:hs2"}
+// (two IDs differ from others only in letter case — of the server name, of the localpart: equality of user IDs and of
+// server names is byte equality everywhere in the auth rules)
+var authUsers = []string{"@creator:hs1", "@alice:hs1", "@bob:hs2", "@carol:hs3", "@dave:hs2", "@eve:HS1", "@Alice:hs1"}
 var memberships = []string{"join", "leave", "invite", "ban", "knock"}
 var joinRules = []string{"public", "invite", "knock", "restricted", "knock_restricted", "private", ""}
 var levelVals = []int64{-1, 0, 1, 25, 49, 50, 51, 75, 99, 100, 101}
